@@ -4,7 +4,9 @@
 // them with resolved paths, and can
 //   --kill K        SIGKILL the root process at the entry of its K-th mutating call
 //   --fail K ERRNO  make the root's K-th mutating call fail with ERRNO without executing it
-// usage: sysmon [--log FILE] [--kill K | --fail K ERRNO] -- cmd args...
+//   --nofail PATH   never inject a failure into an unlink/rmdir of PATH (the project lock: the
+//                   order of calls is not the same in every run, so the harness cannot rely on K)
+// usage: sysmon [--log FILE] [--kill K | --fail K ERRNO] [--nofail PATH] -- cmd args...
 // exit status: the root's exit status (128+signal if killed); the log's last line is
 // "END count=<n> exit=<code>".
 #define _GNU_SOURCE
@@ -103,10 +105,11 @@ static const char *classify(pid_t t, struct user_regs_struct *r, char *p1, char 
 }
 
 int main(int argc, char **argv) {
-  long killat = 0, failat = 0; int failerrno = EIO; const char *logpath = NULL; int a = 1;
+  long killat = 0, failat = 0; int failerrno = EIO; const char *logpath = NULL; const char *nofail = NULL; int a = 1;
   while (a < argc && strcmp(argv[a], "--")) {
     if (!strcmp(argv[a], "--log") && a + 1 < argc) { logpath = argv[a + 1]; a += 2; }
     else if (!strcmp(argv[a], "--kill") && a + 1 < argc) { killat = atol(argv[a + 1]); a += 2; }
+    else if (!strcmp(argv[a], "--nofail") && a + 1 < argc) { nofail = argv[a + 1]; a += 2; }
     else if (!strcmp(argv[a], "--fail") && a + 2 < argc) { failat = atol(argv[a + 1]); failerrno = atoi(argv[a + 2]); a += 3; }
     else { fprintf(stderr, "sysmon: bad argument %s\n", argv[a]); return 2; }
   }
@@ -142,7 +145,9 @@ int main(int argc, char **argv) {
               kill(child, SIGKILL);
               for (int j = 0; j < nt; j++) if (tids[j] != child) kill(tids[j], SIGKILL);
             }
-            if (root && failat && count == failat) {
+            if (root && failat && count == failat && nofail && !strcmp(p1, nofail) && (!strcmp(name, "unlink") || !strcmp(name, "rmdir"))) {
+              if (lg) { fprintf(lg, "NOFAIL at %ld\n", count); fflush(lg); }
+            } else if (root && failat && count == failat) {
               inject[i] = 1; r.orig_rax = (unsigned long long)-1;
               ptrace(PTRACE_SETREGS, t, 0, &r);
               if (lg) { fprintf(lg, "FAIL at %ld errno=%d\n", count, failerrno); fflush(lg); }
